@@ -52,30 +52,23 @@ CASES = [
       ("        X, y, A = self._validate_input(X, y, sensitive_features, reinitialize)\n",
        "        X, y, A = self._validate_input(X, y, sensitive_features, fresh)\n")),
     R("r-adv-reinit-demorgan", ADV, "De Morgan: `not (hasattr(..) and self.warm_start)`",
-      (REINIT, "        reinitialize = not (hasattr(self, \"classes_\") and self.warm_start)\n"),
-      expect="changed", why="lifecycle.py alone: same; the whole suite is blocked by adv_schedule.py (group adv), which prints the rule as written into AdvScheduleSrc.lean"),
+      (REINIT, "        reinitialize = not (hasattr(self, \"classes_\") and self.warm_start)\n")),
     R("r-adv-reinit-swap", ADV, "swap the two (pure) disjuncts of the reinitialize rule",
-      (REINIT, "        reinitialize = not self.warm_start or not hasattr(self, \"classes_\")\n"),
-      expect="changed", why="lifecycle.py alone: same; the whole suite is blocked by adv_schedule.py (group adv), which prints the rule as written into AdvScheduleSrc.lean"),
+      (REINIT, "        reinitialize = not self.warm_start or not hasattr(self, \"classes_\")\n")),
     R("r-adv-reinit-temp", ADV, "temporaries for both atoms of the reinitialize rule",
       (REINIT, "        has_classes = hasattr(self, \"classes_\")\n        warm = self.warm_start\n"
-               "        reinitialize = not has_classes or not warm\n"),
-      expect="refused", why="lifecycle.py alone: same; the whole suite is blocked by adv_schedule.py (group adv), which does not resolve the temporaries"),
+               "        reinitialize = not has_classes or not warm\n")),
     R("r-adv-reinit-inline-kw", ADV, "inline the rule into the call and pass it by keyword",
       (REINIT, ""),
       ("        X, y, A = self._validate_input(X, y, sensitive_features, reinitialize)\n",
-       "        X, y, A = self._validate_input(\n            X, y, sensitive_features, reinitialize=not hasattr(self, \"classes_\") or not self.warm_start\n        )\n"),
-      expect="refused", why="lifecycle.py alone: same; the whole suite is blocked by adv_schedule.py (group adv), which pins the shape of the _validate_input call"),
+       "        X, y, A = self._validate_input(\n            X, y, sensitive_features, reinitialize=not hasattr(self, \"classes_\") or not self.warm_start\n        )\n")),
     R("r-adv-guard-rename-swap", ADV, "_validate_input: rename `is_fitted`, swap the disjuncts of the setup guard",
       (TRY, "        try:\n            check_is_fitted(self)\n            already = True\n        except NotFittedError:\n            already = False\n"),
-      (GUARD, "        if reinitialize or not already:\n            self.__setup(X, y, A)\n"),
-      expect="refused", why="lifecycle.py alone: same; the whole suite is blocked by adv_schedule.py (group adv), which pins the name is_fitted"),
+      (GUARD, "        if reinitialize or not already:\n            self.__setup(X, y, A)\n")),
     R("r-adv-guard-demorgan", ADV, "_validate_input: `if not (is_fitted and not reinitialize)`",
-      (GUARD, "        if not (is_fitted and not reinitialize):\n            self.__setup(X, y, A)\n"),
-      expect="changed", why="lifecycle.py alone: same; the whole suite is blocked by adv_schedule.py (group adv), which prints the guard as written into AdvScheduleSrc.lean"),
+      (GUARD, "        if not (is_fitted and not reinitialize):\n            self.__setup(X, y, A)\n")),
     R("r-adv-try-else", ADV, "_validate_input: `is_fitted = True` moved to the `else:` of the try",
-      (TRY, "        try:\n            check_is_fitted(self)\n        except NotFittedError:\n            is_fitted = False\n        else:\n            is_fitted = True\n"),
-      expect="refused", why="lifecycle.py alone: same; the whole suite is blocked by adv_schedule.py (group adv), which pins the try/except shape of the is_fitted probe"),
+      (TRY, "        try:\n            check_is_fitted(self)\n        except NotFittedError:\n            is_fitted = False\n        else:\n            is_fitted = True\n")),
     R("r-adv-rename-cb", ADV, "rename the callback loop variable cb -> callback",
       ("                    for cb in self.callbacks_:\n                        result = cb(\n",
        "                    for callback in self.callbacks_:\n                        result = callback(\n")),
@@ -110,8 +103,7 @@ CASES = [
       ("                % (X.shape[1], self.__class__.__name__, self._n_features_in_)\n            )\n\n        X_use, X_sensitive = self._split_X(X)",
        "                % (X.shape[1], self.__class__.__name__, self._n_features_in_)\n            )\n\n        X_use, X_sensitive = self._split_columns(X)"),
       ("    def _split_X(self, X):", "    def _split_columns(self, X):"),
-      expect="refused", why="lifecycle.py alone: changed (fitHistoryReads names the method in which the stale read happens, "
-                            "`lookup_ in _split_X`, and C19 pins that string); corr_remover.py (other group) looks the method up by name and refuses"),
+      expect="changed", why="fitHistoryReads names the method in which the stale read happens (`lookup_ in _split_X`) and C19 pins that string"),
     R("r-lag-reorder-init", LAG, "_Lagrangian.__init__: reorder independent attribute initialisations, annotation",
       ("        self.n_oracle_calls = 0\n        self.oracle_execution_times = []\n        self.n_oracle_calls_dummy_returned = 0\n",
        "        self.n_oracle_calls_dummy_returned: int = 0\n        self.oracle_execution_times = []\n        self.n_oracle_calls = 0\n")),
